@@ -41,7 +41,7 @@ func Uni(t *rapid.T, label string, n int) int {
 // genScope draws one of: absent, [request], [response], both, [] - restricted
 // to what the type supports (an unsupported scope is a fault, injected separately).
 func GenScope(t *rapid.T, n *Node) {
-	k := Uni(t, "scope", 16)
+	k := Uni(t, "scope", 18)
 	var sc []string
 	switch {
 	case k < 8:
@@ -55,8 +55,12 @@ func GenScope(t *rapid.T, n *Node) {
 		if k == 14 {
 			sc = []string{"response", "request"}
 		}
-	default:
+	case k == 15:
 		sc = []string{}
+	case k == 16: // a kind named twice is still just that kind
+		sc = []string{"request", "request"}
+	default:
+		sc = []string{"response", "request", "response"}
 	}
 	var ok []string
 	for _, s := range sc {
@@ -127,6 +131,10 @@ func genValues(t *rapid.T, label string) []string {
 	return []string{"2", "1"}
 }
 
+// BadQueryPairs: pairs url.ParseQuery rejects (bad escape, stray percent sign,
+// semicolon separator) while it keeps decoding the pairs around them.
+var BadQueryPairs = []string{"p=%zz", "x=50%", "q=1;p=2", "z=%"}
+
 func genQuery(t *rapid.T, allowBad bool) string {
 	var parts []string
 	for _, q := range []string{"p=1", "p=2", "q=1", "q=2"} {
@@ -135,7 +143,8 @@ func genQuery(t *rapid.T, allowBad bool) string {
 		}
 	}
 	if allowBad && Uni(t, "badquery", 16) == 0 {
-		parts = append(parts, "p=%zz") // unparsable pair: the query as a whole "fails to parse"
+		// unparsable pair: the query as a whole "fails to parse", the other pairs still decode
+		parts = append(parts, Pick(t, "badpair", BadQueryPairs))
 	}
 	return strings.Join(parts, "&")
 }
